@@ -18,14 +18,16 @@ ASSUMPTIONS = [
     "parametric model theorems (payload is an arbitrary N there) plus simulator correspondence on random 8-bit data",
     "the lock-step tie and the correspondence traces are restricted by the same environment assumption (behaviour outside it is "
     "not part of the property; a change that, say, stopped dropping the byte must not raise an alarm)",
+    "constructor option domain: the default (usb) and domain='sync' are both tied (target bdet_sync: same model, lock-step over the p4 "
+    "alphabet + correspondence); a tree on which a tied configuration can no longer be elaborated is reported as a violation",
 ]
 TIE_IMPORTS = "From LunaModel Require Import BoundaryDet BoundaryDet_proofs.\n"
 
 
-def mk(name):
+def mk(name, domain=None):
     def build():
         from luna.gateware.usb.stream import USBOutStreamBoundaryDetector
-        d = USBOutStreamBoundaryDetector()
+        d = USBOutStreamBoundaryDetector() if domain is None else USBOutStreamBoundaryDetector(domain=domain)
         u, p = d.unprocessed_stream, d.processed_stream
         return d, [("valid", u.valid), ("next", u.next), ("complete_in", d.complete_in),
                    ("invalid_in", d.invalid_in), ("payload", u.payload)], \
@@ -35,7 +37,10 @@ def mk(name):
 
 
 def targets(tier):
-    return [mk("bdet")]
+    # the constructor's `domain` option: the same module placed in the sync domain must be the same machine
+    ts = [mk("bdet"), mk("bdet_sync", domain="sync")]
+    ts[0].expect_clocks = ["usb_clk"]; ts[1].expect_clocks = ["clk"]
+    return ts
 
 
 # payload alphabets of the lock-step obligations (0 must be a member: the flush cycles are all-zero words)
@@ -117,7 +122,13 @@ def alpha_expr(alpha):
 
 
 def obligations(targets, tier):
-    t = targets[0]
+    obs = []
+    for t in targets:
+        obs += _obligations_of(t, tier if t is targets[0] else "quick")
+    return obs
+
+
+def _obligations_of(t, tier):
     obs = []
     for nm, alpha in alphabets(tier).items():
         obs.append(tie_explicit.rlock_alpha(
